@@ -4,7 +4,8 @@ d=$(realpath $1); tier=${2:-quick}; shift; shift
 prop=$(python3 -c "import json;print(json.load(open('$d/meta.json'))['property'])")
 cd /repo || exit 2
 if [ -n "$(git status --porcelain)" ]; then echo "repo dirty"; exit 2; fi
-git apply "$d/patch.diff" 2>/dev/null || git apply --3way "$d/patch.diff" 2>/dev/null || { echo "$prop: patch does not apply"; git checkout -q -- .; exit 3; }
+git apply "$d/patch.diff" 2>/dev/null || git apply --3way "$d/patch.diff" 2>/dev/null || { echo "$prop: patch does not apply"; git reset -q; git checkout -q -- .; exit 3; }
+if grep -rl '^<<<<<<<' --include=*.go . >/dev/null 2>&1; then echo "$prop: patch conflicts with the current tree"; git reset -q; git checkout -q -- .; exit 3; fi
 git reset -q
 cd /verif && timeout 1800 ./bin/check $prop $tier "$@" 2>&1 | grep -E "^(VIOLATION|INCONCLUSIVE|OK|KNOWN|counterexample)" | cut -c1-260
 rc=${PIPESTATUS[0]}
